@@ -259,6 +259,9 @@ func (tr *Transaction) discard() {
 		// Iterator may still use the table, so we use tOps.remove here.
 		tr.db.s.tops.remove(t.fd)
 	}
+	// Do not hand the sequence numbers out again: an iterator of this
+	// transaction still reads at them.
+	tr.db.setSeq(tr.seq)
 }
 
 // Discard discards the transaction.
